@@ -224,7 +224,8 @@ CLAIMS["C12"] = _b(
     "with gates regenerated from broker.rs, failed_handler_queues_removal); forwarding picks CallFunction2 only for 1.19+ callees, "
     "forwards aborts only to 1.16+ callees, forces subscribe_all off for pre-1.18 owners (call_downtranslation, abort_only_to_1_16, "
     "subscribe_all_forced_off); payload interop for all version pairs 1.14..1.20 and all well-formed values (payload_interop, on top of "
-    "the C13 theorems). 'Never sends a kind newer than the receiver's version' is additionally an oracle on every message of every "
+    "the C13 theorems; the conversion model is tied to core/src/convert_value.rs in this check too: conversion lines of the codec harness "
+    "with the conversion oracles). 'Never sends a kind newer than the receiver's version' is additionally an oracle on every message of every "
     "correspondence run; a global invariant over introspection registrations is not proved: partial there.", "DESIGN.md section 6 C12")
 
 CLAIMS["C20"] = {
